@@ -78,7 +78,7 @@ class C02(HistoryProperty):
         "nested key order is part of a JSON value (only top-level order is normalised)",
     ]
     STUBS = HistoryProperty.STUBS + ["RecordingCache: MemoryCache subclass that logs get/set/exists (real storage code path)"]
-    QUICK = {"runs": 3000, "wall": 40}
+    QUICK = {"runs": 20000, "wall": 40}
     THOROUGH = {"runs": 400000, "wall": 480}
     NONTRIVIAL_MEASURE = "history_with_checked_repeat"
 
